@@ -63,8 +63,7 @@ class Wrapper:
     def crashes(self):
         return self.h.crashes
 
-    def run(self, lines):
-        outs = self.h.run(lines)
+    def predrive(self, lines, outs):
         want = []
         for l, o in zip(lines, outs):
             try:
@@ -76,6 +75,31 @@ class Wrapper:
                 drive(sorted(set(want)))
             except Exception:
                 pass
+
+    def suspicious(self, l, o):
+        """an observation that would be reported (not a known finding)"""
+        try:
+            why = oracle(l, o)
+            if why:
+                return classify(l, o, why) is None
+            return not compare(l, o, None)
+        except Exception:
+            return True
+
+    def run(self, lines):
+        outs = self.h.run(lines)
+        self.predrive(lines, outs)
+        # flake guard: a scenario is reported only if it misbehaves three times in a row (timing under load: a swap-out that
+        # does not settle in time, a port taken by another process); genuine failures are deterministic here
+        for attempt in range(2):
+            bad = [i for i, (l, o) in enumerate(zip(lines, outs)) if self.suspicious(l, o)]
+            if not bad or len(bad) > 12:
+                break
+            again = self.h.run([lines[i] for i in bad])
+            self.predrive([lines[i] for i in bad], again)
+            for i, o in zip(bad, again):
+                if not self.suspicious(lines[i], o):
+                    outs[i] = o
         return outs
 
     def close(self):
